@@ -224,6 +224,9 @@ def gen_case(streams, tier):
         entry = w.choice(["workflow_class", "workflow_str", "workflow_enum"])
     return {
         "dev_seed": w.randint(0, 2**31 - 1),
+        # how "the same seed" is handed to the devices of one run: an integer, a list of integers, or ONE
+        # numpy SeedSequence object that every device of the run is created from
+        "seed_kind": w.choice(["int", "int", "int", "int_list", "seed_sequence_shared", "seed_sequence_shared"]),
         "backend": backend,
         "max_workers": mw,
         "entry": entry,
@@ -255,7 +258,7 @@ def _run_history(case, sched_seed, serial_ref=False, durations=None):
     out = []
     try:
         mw = None if serial_ref else case["max_workers"]
-        dev = qp.device("default.qubit", seed=case["dev_seed"], max_workers=mw)
+        dev = qp.device("default.qubit", seed=_seed_of(case), max_workers=mw)
         cls = None
         if backend != "none":
             cls = backends.get_supported_backends()[backend]
@@ -301,7 +304,8 @@ def _run_history(case, sched_seed, serial_ref=False, durations=None):
     info = {"inversions": ps.inversions(), "interleaved": interleaved, "tasks": ps.task_seq,
             "draws": hub.draws, "unseeded": hub.unseeded, "durations": list(ps.drawn),
             "sig": [ps.completion_order, ps.slice_log], "sim_time": sim.now,
-            "max_in_flight": ps.max_in_flight}
+            "max_in_flight": ps.max_in_flight, "deadlines": ps.timeouts_armed,
+            "deadlines_expired": ps.timeouts_expired}
     return out, info
 
 
@@ -353,12 +357,29 @@ def _check_det(tspec, res):
     return None
 
 
+_SEED_OBJECTS = {}
+
+
+def _seed_of(case):
+    import numpy as np
+
+    kind = case.get("seed_kind", "int")
+    if kind == "int_list":
+        return [case["dev_seed"] % 1000, case["dev_seed"] // 1000]
+    if kind == "seed_sequence_shared":
+        if "ss" not in _SEED_OBJECTS:
+            _SEED_OBJECTS["ss"] = np.random.SeedSequence(case["dev_seed"])
+        return _SEED_OBJECTS["ss"]
+    return case["dev_seed"]
+
+
 def run_case(case):
     import hashlib
     import json
 
+    _SEED_OBJECTS.clear()
     violations = []
-    counters = {"histories": 1}
+    counters = {"histories": 1, "seed:" + case.get("seed_kind", "int"): 1}
     sig_base = {"backend": case["backend"], "entry": case["entry"]}
     runs = []
     drawn0 = None
@@ -443,6 +464,8 @@ def run_case(case):
         "executions_out_of_order": sum(1 for _, i in runs if i["inversions"]),
         "executions_with_interleaved_draws": sum(1 for _, i in runs if i["interleaved"]),
         "unseeded_generators": sum(i["unseeded"] for _, i in runs),
+        "deadlines_on_virtual_clock": sum(i.get("deadlines", 0) for _, i in runs),
+        "deadlines_expired": sum(i.get("deadlines_expired", 0) for _, i in runs),
         "backend:" + case["backend"]: 1,
         "entry:" + case["entry"]: 1,
     })
@@ -557,7 +580,7 @@ def conformance(root_seed, tier):
 
 def _real_history(case):
     qp, qgen, backends = _ENV["qp"], _ENV["qgen"], _ENV["backends"]
-    dev = qp.device("default.qubit", seed=case["dev_seed"], max_workers=case["max_workers"])
+    dev = qp.device("default.qubit", seed=_seed_of(dict(case, seed_kind="int" if case.get("seed_kind") == "seed_sequence_shared" else case.get("seed_kind", "int"))), max_workers=case["max_workers"])
     cls = backends.get_supported_backends()[case["backend"]]
     out = []
     for call in case["calls"]:
